@@ -237,6 +237,7 @@ CHECKS = {
                  "watchable-conc = an observer saw the zero value before a Set or several Sets between two of its Values; future = a waiter present at Fill, >= 2 waiters; lazy = >= 2 racing callers; distinct = distinct plan JSON"),
         "assumptions": ["sync.Map as reference", "testing/synctest", "rapid v1.3.0; go1.26.8"],
         "jobs": [{"pkg": "c18sync", "run": "TestMap|TestWatchable|TestFuture$|TestLazy", "kinds": ["map", "watchable-seq", "watchable-conc", "watchable-first-set", "future", "lazy"], "scale_thorough": 10, "shards_thorough": 16, "replay_reps": 20},
+                 {"pkg": "c18old", "kinds": ["lazy-panic-nil"], "scale_thorough": 5, "shards_thorough": 2},
                  {"pkg": "c18sync", "run": "TestSyncStorm", "kinds": ["sync-storm"], "shards_quick": 4, "scale_quick": 3, "scale_thorough": 20, "shards_thorough": 8, "replay_reps": 20},
                  {"pkg": "c18sync", "goarch": "386", "run": "TestMap|TestWatchable|TestFuture$|TestSyncStorm", "kinds": ["map", "watchable-seq", "watchable-conc", "watchable-first-set", "future", "sync-storm"], "scale_quick": 0.1, "scale_thorough": 1, "shards_thorough": 2},
                  {"pkg": "c18sync", "run": "TestFutureRace|TestLazy|TestWatchableSequential|TestSyncStorm", "race": True, "kinds": ["future-race", "sync-storm"], "scale_quick": 0.5, "scale_thorough": 5, "shards_thorough": 4, "replay_reps": 20}],
@@ -306,7 +307,7 @@ RULE_ADDENDA = {
     "C15": " Heap elements may hold pointers; setups include a big deque drained to a quarter; one call past the end may precede the mid ops; a second iterator may be open.",
     "C16": " Kind cond-real-storm (own process, real clock, no bubble): per round a waiter enters Wait while a Broadcast made without the lock is aimed at that instant, then - once the lock can be taken, i.e. the waiter has released it - one Signal; 0-4 further goroutines call Signal / Broadcast without the lock; everybody is through within 10 s (always non-trivial). The cond may be stored by value after construction ('by_value'); broadcast-storm variants with a shared RLocker and bursts of simultaneous Signals. Also runs for GOARCH=386.",
     "C17": " Kind group-reentrant: a group built inside another group's function on the context it was handed (1-3 levels), stopped there and then offered work of every kind (none of it runs; the outer group goes on and its StopAndWait returns); a Trigger / PeriodicOrTrigger function that triggers itself at the end of every run (back to back, no overlap, StopAndWait returns, nothing runs afterwards). Real-clock kinds in c17old: pot-old-timers, pot-trigger-real (a trigger aimed at the end of a run), stop-reentrant (a group function that calls into the group while StopAndWait waits), group-dropped (a Group nobody references keeps running until stopped, across GCs), group-long-lived (one Group, 131075-300000 short functions through Do with 1-8 in flight: all of them run, StopAndWait returns). Also runs for GOARCH=386.",
-    "C18": " sync-storm modes: loadorstore, loadanddelete, nomatch (a failing CompareAndDelete/CompareAndSwap is invisible to concurrent observers), watchable with 1-3 setters; future waiters that arrive late with deadline contexts. Also runs for GOARCH=386.",
+    "C18": " Kind lazy-panic-nil (package c18old, built with //go:debug panicnil=1 as for a main module at go <= 1.20): f panics with a nil value: it runs once and no access returns a value. sync-storm modes: loadorstore, loadanddelete, nomatch (a failing CompareAndDelete/CompareAndSwap is invisible to concurrent observers), watchable with 1-3 setters; future waiters that arrive late with deadline contexts. Also runs for GOARCH=386.",
     "C19": " Also: inputs of thousands of items (strategy switches), stateful callbacks (call counts), huge arguments, sampling over populations up to MaxInt64/2, kind sample-race (package-level xrand functions from several goroutines under the race detector).",
     "C20": " Also: periods with sub-millisecond parts and near MaxInt64, kind ticker-reset-storm (real clock: up to 16 goroutines reset one ticker hundreds of times, then to one hour: no tick stamped after the last switch), kind ticker-stop-storm (real clock: 20 us tickers stopped at swept moments by 2-8 goroutines: no tick stamped after Stop returned).",
 }
